@@ -2,13 +2,17 @@ use smartcore::linalg::naive::dense_matrix::DenseMatrix;
 use smartcore::linalg::evd::EVDDecomposableMatrix;
 use smartcore::linalg::BaseMatrix;
 fn main(){
-    let a0=[0.0945f64,0.,0.,0., 0.,0.,0.519,-0.67, 0.,0.,0.72,0., 0.467,0.,0.,0.];
-    let a32=DenseMatrix::from_array(4,4,&a0.iter().map(|x|*x as f32).collect::<Vec<f32>>());
-    let e=a32.evd(false).unwrap();
-    println!("f32 d={:?} e={:?}", e.d, e.e);
-    for j in 0..4 { println!(" v{}={:?}", j, e.V.get_col_as_vec(j)); }
-    let a64=DenseMatrix::from_array(4,4,&a0);
+    let r: serde_json::Value = serde_json::from_str(&std::fs::read_to_string(std::env::args().nth(1).unwrap()).unwrap()).unwrap();
+    let a=&r["case"]["A"]; let n=a["rows"].as_u64().unwrap() as usize;
+    let d:Vec<f64>=a["row_major"].as_array().unwrap().iter().map(|x|x.as_f64().unwrap()).collect();
+    let a64=DenseMatrix::from_array(n,n,&d);
     let e=a64.evd(false).unwrap();
-    println!("f64 d={:?} e={:?}", e.d, e.e);
-    for j in 0..4 { println!(" v{}={:?}", j, e.V.get_col_as_vec(j)); }
+    let an=d.iter().map(|x|x*x).sum::<f64>().sqrt();
+    for j in 0..n {
+        let v=e.V.get_col_as_vec(j);
+        let nv=v.iter().map(|x|x*x).sum::<f64>().sqrt();
+        let mut r2=0.0; for i in 0..n { let mut s=0.0; for k in 0..n { s+=d[i*n+k]*v[k]; } s-=e.d[j]*v[i]; r2+=s*s; }
+        println!("j={} d={:.12e} e={:.3e} |v|={:.3e} rel-res={:.3e}", j, e.d[j], e.e[j], nv, r2.sqrt()/(an*nv));
+    }
+    for i in 0..n { println!("{}", (0..n).map(|k| format!("{:8.3}", d[i*n+k])).collect::<Vec<_>>().join(" ")); }
 }
